@@ -11,6 +11,7 @@ import (
 	"math/rand"
 	"os"
 	"path/filepath"
+	"sync"
 	"sync/atomic"
 	"time"
 
@@ -229,10 +230,11 @@ type cancelEvent struct {
 	Leaked         string `json:"leaked,omitempty"`
 }
 
-// cancellable: the flavours of a context that can be cancelled - plain, with an explicit cause (the error of the context is the
-// same: context.Canceled), or a child of one that is cancelled with a cause.
+// cancellable: the flavours of a context that ends - cancelled plainly, with an explicit cause (the error of the context is the
+// same: context.Canceled), as a child of one that is cancelled with a cause; or ended by its time limit (the error of the context
+// is context.DeadlineExceeded: the 'timeout' kind), directly or as the child of one.
 func cancellable(n int) (context.Context, context.CancelFunc) {
-	switch ((n % 3) + 3) % 3 {
+	switch ((n % ctxFlavours) + ctxFlavours) % ctxFlavours {
 	case 1:
 		ctx, cancel := context.WithCancelCause(context.Background())
 		return ctx, func() { cancel(errors.New("the caller lost interest")) }
@@ -240,8 +242,50 @@ func cancellable(n int) (context.Context, context.CancelFunc) {
 		parent, cancel := context.WithCancelCause(context.Background())
 		ctx, stop := context.WithCancel(parent)
 		return ctx, func() { cancel(errors.New("the caller lost interest")); stop() }
+	case 3:
+		c := newExpiring()
+		return c, c.expire
+	case 4:
+		c := newExpiring()
+		ctx, stop := context.WithCancel(c)
+		return ctx, func() { c.expire(); <-ctx.Done(); _ = stop }
 	}
 	return context.WithCancel(context.Background())
+}
+
+const ctxFlavours = 5
+
+// expiring is a context whose time limit is reached when the harness says so (a time limit cannot be scripted to the backend
+// call with the standard contexts): Done is closed and Err is context.DeadlineExceeded from that instant on.
+type expiring struct {
+	context.Context
+	done    chan struct{}
+	once    sync.Once
+	mu      sync.Mutex
+	at      time.Time
+	expired bool
+}
+
+func newExpiring() *expiring {
+	return &expiring{Context: context.Background(), done: make(chan struct{}), at: time.Now().Add(time.Hour)}
+}
+func (c *expiring) Deadline() (time.Time, bool) { c.mu.Lock(); defer c.mu.Unlock(); return c.at, true }
+func (c *expiring) Done() <-chan struct{}       { return c.done }
+func (c *expiring) Err() error {
+	c.mu.Lock()
+	defer c.mu.Unlock()
+	if c.expired {
+		return context.DeadlineExceeded
+	}
+	return nil
+}
+func (c *expiring) expire() {
+	c.once.Do(func() {
+		c.mu.Lock()
+		c.at, c.expired = time.Now(), true
+		c.mu.Unlock()
+		close(c.done)
+	})
 }
 
 type env struct {
@@ -317,6 +361,12 @@ func entryPoints() []entryPoint {
 				return fs.MoveWithContext(ctx, tree(e), filepath.Join(e.root, "merged"))
 			}},
 		{name: "Remove", run: func(ctx context.Context, fs filesystem.FS, e *env) error { return fs.RemoveWithContext(ctx, tree(e)) }},
+		{name: "RemoveWithPrivileges", run: func(ctx context.Context, fs filesystem.FS, e *env) error {
+			return fs.RemoveWithPrivileges(ctx, tree(e))
+		}},
+		{name: "RemoveWithPrivileges/file", run: func(ctx context.Context, fs filesystem.FS, e *env) error {
+			return fs.RemoveWithPrivileges(ctx, filepath.Join(e.root, "big.bin"))
+		}},
 		{name: "CleanDir", run: func(ctx context.Context, fs filesystem.FS, e *env) error { return fs.CleanDirWithContext(ctx, tree(e)) }},
 		{name: "ChmodRecursively", run: func(ctx context.Context, fs filesystem.FS, e *env) error {
 			return fs.ChmodRecursively(ctx, tree(e), 0o750)
@@ -376,11 +426,22 @@ func vfs(e *env, g *fsgate.Fs) filesystem.FS {
 	if e.backend == "os" {
 		t = filesystem.StandardFS
 	}
+	if fr, ok := e.base.(filesystem.IForceRemover); ok {
+		// the OS backend can remove with escalated permissions: the recording wrapper must not hide that from the library
+		return filesystem.NewVirtualFileSystem(forcing{g, fr}, t, filesystem.IdentityPathConverterFunc)
+	}
 	return filesystem.NewVirtualFileSystem(g, t, filesystem.IdentityPathConverterFunc)
 }
 
+type forcing struct {
+	*fsgate.Fs
+	under filesystem.IForceRemover
+}
+
+func (f forcing) ForceRemoveIfPossible(path string) error { return f.under.ForceRemoveIfPossible(path) }
+
 // oneCancel runs entry point ep cancelling the context right after its k-th backend call (k < 0: before the call).
-func oneCancel(ep entryPoint, backend, scratch string, dirs, files, k int) (cancelEvent, error) {
+func oneCancel(ep entryPoint, backend, scratch string, dirs, files, k int, flavour ...int) (cancelEvent, error) {
 	ev := cancelEvent{Ev: "cancel", Entry: ep.name, Backend: backend, K: k, Pre: k < 0, Entries: dirs * files}
 	e, err := newEnv(backend, scratch, dirs, files, ep.empties)
 	if err != nil {
@@ -396,7 +457,11 @@ func oneCancel(ep entryPoint, backend, scratch string, dirs, files, k int) (canc
 			return ev, err
 		}
 	}
-	ctx, cancel := cancellable(k + dirs)
+	fl := k + dirs
+	if len(flavour) > 0 {
+		fl = flavour[0]
+	}
+	ctx, cancel := cancellable(fl)
 	defer cancel()
 	var count, after atomic.Int64
 	var cancelled atomic.Bool
@@ -479,12 +544,15 @@ func cancelSweep(a *hk.Args) error {
 					return err
 				}
 				total := dry.Total
-				pre, err := oneCancel(ep, backend, a.Dir, size[0], size[1], -1)
-				if err != nil {
-					return err
+				// a context that is done before the call: every flavour of "done"
+				for fl := 0; fl < ctxFlavours; fl++ {
+					pre, err := oneCancel(ep, backend, a.Dir, size[0], size[1], -1, fl)
+					if err != nil {
+						return err
+					}
+					pre.Total = total
+					w.Write(pre)
 				}
-				pre.Total = total
-				w.Write(pre)
 				positions := 6
 				if thorough {
 					positions = 60
